@@ -141,12 +141,13 @@ def run(ctx):
         lc = v.args[1] if ok else None
         if ok and isinstance(lc, ast.Name):
             lc = fx.localdefs.get(lc.id)
-        ok = ok and isinstance(lc, (ast.ListComp, ast.GeneratorExp)) and len(lc.generators) == 1 and not lc.generators[0].ifs
+        els = q.star_elements(lc) if ok and lc is not None else None
+        ok = ok and bool(els) and len(els) == 1
         if ok:
-            g = lc.generators[0]
-            i = norm(g.target)
-            ok = norm(g.iter) in ("range(ns)", "range(len(slaves))")
-            elt = lc.elt
+            elt, tgt, itx = els[0]
+            # the index variable: `i in range(ns)` or `(i, x) in enumerate(slaves)`
+            i = tgt if tgt.isidentifier() else (tgt.strip("()").split(",")[0].strip() if itx == "enumerate(slaves)" else "?")
+            ok = itx in ("range(ns)", "range(len(slaves))", "enumerate(slaves)")
             # term: Replicate(sel_r[i], ..) & slaves[i][1].dat_r
             ok = ok and isinstance(elt, ast.BinOp) and isinstance(elt.op, ast.BitAnd)
             if ok:
